@@ -12,6 +12,15 @@ theorem pres_shNil {s s' : St} {a : Act} (hI : Inv s) (h : step .repaired s a = 
   | fire t0 =>
     simp only [step] at h
     (repeat' (split at h)) <;> (try cases h) <;> (simp only [St.setPc, St.setObj]; (have i_shNil := hI.shNil; have i_shOpen := hI.shOpen; have i_wrA := hI.wrA; have i_refs := hI.refs; grind [knowsNil, needsOpen, wslot, PC.ref]))
+  | corrupt d =>
+    simp only [step] at h
+    (repeat' (split at h)) <;> (try cases h) <;> (simp only []; (have i_shNil := hI.shNil; have i_shOpen := hI.shOpen; have i_wrA := hI.wrA; have i_refs := hI.refs; grind [knowsNil, needsOpen, wslot, PC.ref]))
+  | block d =>
+    simp only [step] at h
+    (repeat' (split at h)) <;> (try cases h) <;> (simp only []; (have i_shNil := hI.shNil; have i_shOpen := hI.shOpen; have i_wrA := hI.wrA; have i_refs := hI.refs; grind [knowsNil, needsOpen, wslot, PC.ref]))
+  | repair d =>
+    simp only [step] at h
+    (repeat' (split at h)) <;> (try cases h) <;> (simp only []; (have i_shNil := hI.shNil; have i_shOpen := hI.shOpen; have i_wrA := hI.wrA; have i_refs := hI.refs; grind [knowsNil, needsOpen, wslot, PC.ref]))
   | run t0 =>
     simp only [step] at h
     split at h
